@@ -160,8 +160,8 @@ def Ctx.notifySubChangeP2P (c : Ctx) (t : Topic) (uid actor : Uid) (oldWant oldG
   else
     let newM := newWant &&& newGiven
     let oldM := oldWant &&& oldGiven
-    let c := if !isPresencer newM ∧ isPresencer oldM then c.presSingleOfflineOffline uid uid2 "off+dis" "" "" "" ""
-      else if isPresencer newM ∧ !isPresencer oldM then c.presSingleOffline t uid newM "?unkn+en" "" "" "" "" false
+    let c := if !hearsPres newM ∧ hearsPres oldM then c.presSingleOfflineOffline uid uid2 "off+dis" "" "" "" ""
+      else if hearsPres newM ∧ !hearsPres oldM then c.presSingleOffline t uid newM "?unkn+en" "" "" "" "" false
       else c
     let c := c.presDirect t { what := "acs", src := "", extra := acs, singleUser := uid, skipSid := skip }
     c.presSingleOffline t uid newM "acs" acs actor uid skip true
